@@ -440,6 +440,21 @@ class ExprMixin:
             else:
                 yield "ok", ("list", tuple(ts)), s
 
+    def e_Set(self, n, st, fx):
+        for r, ts, s in self.ev_list(n.elts, st, fx):
+            if r == "raise":
+                yield r, ts, s
+            else:
+                yield "ok", ("setlit", tuple(ts)), s
+
+    def e_NamedExpr(self, n, st, fx):
+        for r, t, s in self.ev(n.value, st, fx):
+            if r == "raise":
+                yield r, t, s
+            else:
+                s.env[n.target.id] = t
+                yield "ok", t, s
+
     def e_Dict(self, n, st, fx):
         yield "ok", ("dictlit", st.uid()), st
 
